@@ -329,6 +329,17 @@ def run_case(case):
     prog = case["prog"]
     out = {"id": case["id"], "prog": prog}
     reg0 = registries() if not prog.get("utable") else None
+    if case["id"] % 4 == 1 and not prog.get("utable"):
+        # history (C19): user code that re-wraps EXISTING primitives and gives the new objects rules of their own - a custom-gradient
+        # alias of multiply, a checkpointed add - before this program runs.  The library's own primitives must be unaffected.
+        try:
+            alias = primitive(anp.multiply)
+            defvjp(alias, lambda ans, x, y: lambda g: g * 0.0 + 7.0, lambda ans, x, y: lambda g: g * 0.0 - 5.0)
+            defjvp(alias, lambda g, ans, x, y: g * 0.0 + 7.0, lambda g, ans, x, y: g * 0.0 - 5.0)
+            checkpoint(anp.add)
+            checkpoint(anp.negative)
+        except Exception as ex:     # noqa
+            out["history_error"] = type(ex).__name__
     with warnings.catch_warnings():
         warnings.simplefilter("error" if prog.get("warnerr") else "ignore")
         top0 = trace_stack.top
